@@ -328,6 +328,28 @@ def apalache_check(module):
     return {"available": True, "obligations": res, "module": "spec/apalache/" + module}
 
 
+def tlaps_check(module):
+    """Unbounded proof with the TLA+ proof system for spec/tlaps/<module>.  Extra evidence only: an unavailable or
+    failing TOOL is recorded, never fatal; obligations that cannot be proved are an error of the specification."""
+    import shutil, re
+    if not shutil.which("tlapm"):
+        return {"available": False}
+    d = os.path.join(SPEC, "tlaps")
+    cache = os.path.join(BUILD, "tlacache")
+    try:
+        p = subprocess.run(["timeout", "900", "tlapm", "--threads", "8", "--cache-dir", cache, module], cwd=d, capture_output=True, text=True, timeout=960)
+    except Exception as ex:
+        return {"available": True, "result": "tool-error", "detail": str(ex)[:200]}
+    out = p.stdout + p.stderr
+    m = re.search(r"All (\d+) obligations? proved", out)
+    if m:
+        return {"available": True, "result": "proved", "obligations": int(m.group(1)), "module": "spec/tlaps/" + module}
+    f = re.search(r"(\d+)/(\d+) obligations? failed", out)
+    if f:
+        raise ToolError("TLAPS could not prove %s of %s obligations of spec/tlaps/%s" % (f.group(1), f.group(2), module))
+    return {"available": True, "result": "tool-error", "detail": out[-300:]}
+
+
 NOT_OBSERVED = []    # outcome classes the pinned tree shows but this run did not (reported in the evidence, never fatal)
 
 
